@@ -61,15 +61,30 @@ def install_race_control():
     Util.first = staticmethod(first)
 
 
+_TROUGH = {"switches": ["s_t1", "s_t2", "s_t3"], "coil": "c_trough", "target": "bd_plunger", "eject_timeout": 3.0}
+_PLUNGER = {"switches": ["s_plunger"], "coil": "c_plunger", "target": "playfield", "eject_timeout": 4.0}
+_COMMON = {"drain": "bd_trough", "pf_switch": "s_pf", "transit_time": 0.3, "pf_time": 1.0}
 TOPO = {
-    "t1": {"devices": {"bd_trough": {"switches": ["s_t1", "s_t2", "s_t3"], "coil": "c_trough", "target": "bd_plunger", "eject_timeout": 3.0},
-                       "bd_plunger": {"switches": ["s_plunger"], "coil": "c_plunger", "target": "playfield", "eject_timeout": 4.0}},
-           "balls": {"bd_trough": 2}, "drain": "bd_trough", "pf_switch": "s_pf", "transit_time": 0.3, "pf_time": 1.0},
+    "t1": dict(_COMMON, devices={"bd_trough": _TROUGH, "bd_plunger": _PLUNGER}, balls={"bd_trough": 2}),
+    "t1m": dict(_COMMON, devices={"bd_trough": _TROUGH, "bd_plunger": dict(_PLUNGER, mechanical=True)}, balls={"bd_trough": 2}),
+    "t2": dict(_COMMON, devices={"bd_trough": _TROUGH, "bd_plunger": _PLUNGER,
+                                 "bd_lock": {"entrance": "s_lock_entrance", "capacity": 2, "coil": "c_lock", "target": "playfield",
+                                             "eject_timeout": 4.0, "shot": True}}, balls={"bd_trough": 2}),
+    "t3": dict(_COMMON, devices={"bd_trough": _TROUGH, "bd_plunger": _PLUNGER,
+                                 "bd_saucer": {"switches": ["s_saucer"], "coil": "c_saucer", "target": "playfield", "eject_timeout": 2.0,
+                                               "shot": True}}, balls={"bd_trough": 2}),
 }
+# name -> (topology, config patches, script of actions taken at rest)
 SCRIPTS = {
-    "one-ball-game": ("t1", ["start", "drain"]),
-    "two-balls-in-play": ("t1", ["start", "add", "drain", "drain"]),
+    "one-ball-game": ("t1", None, [["start"], ["drain"]]),
+    "two-balls-in-play": ("t1", None, [["start"], ["add"], ["drain"], ["drain"]]),
+    "two-ball-game": ("t1", {"game": {"balls_per_game": 2}}, [["start"], ["drain"], ["drain"]]),
+    "mechanical-plunger": ("t1m", None, [["start"], ["plunge", "bd_plunger", "ok"], ["drain"]]),
+    "lock-shot": ("t2", None, [["start"], ["shoot", "bd_lock"], ["drain"]]),
+    "saucer-shot": ("t3", None, [["start"], ["shoot", "bd_saucer"], ["drain"]]),
+    "two-attempts": ("t1", {"ball_devices": {"bd_plunger": {"max_eject_attempts": 2}}}, [["start"], ["drain"]]),
 }
+QUICK_SCRIPTS = ("one-ball-game", "two-balls-in-play", "mechanical-plunger", "lock-shot", "saucer-shot")
 MAX_REST_STEPS = 400
 
 
@@ -85,8 +100,9 @@ class BallDriver:
     def boot(self):
         install_race_control()
         Races.flip, Races.count, Races.flipped = False, 0, 0
-        topo, self.script = SCRIPTS[self.script_name]
-        self.sys = System("c04", topo + ".yaml")
+        topo, patches, self.script = SCRIPTS[self.script_name]
+        self.max_attempts = {d: (c.get("max_eject_attempts", 0)) for d, c in ((patches or {}).get("ball_devices") or {}).items()}
+        self.sys = System("c04", topo + ".yaml", patches=patches)
         self.m = self.sys.machine
         self.loop = self.sys.loop
         self.t0 = self.loop.time()
@@ -126,9 +142,13 @@ class BallDriver:
         out = []
         if self.w.loose > 0:
             out += [["drain"], ["pfhit"]]
+            out += [["shoot", d] for d, c in self.w.dev.items() if c.get("shot")]
+        for d, c in self.w.dev.items():
+            if c.get("mechanical") and self.w.at[d] > 0 and d not in self.w.kicks:
+                out += [["plunge", d, "ok"], ["plunge", d, "fallback"]]
         if self.m.game is None and self.pos == 0:
             out.append(["start"])
-        if self.m.game is not None and self.adds < 1 and self.requested + self.adds < self.w.total + self.drains:
+        if self.m.game is not None and self.adds < 1 and self.m.game.balls_in_play < self.w.total:
             out.append(["add"])
         return out
 
@@ -140,7 +160,7 @@ class BallDriver:
         acts = self.actions()
         if self.loop.next_deadline() is not None:
             return [("T", 0)] + [(a, 1) for a in acts]
-        nxt = [self.script[self.pos]] if self.pos < len(self.script) else None
+        nxt = self.script[self.pos] if self.pos < len(self.script) else None
         if nxt is None or nxt not in acts:
             return []
         return [(nxt, 0)] + [(a, 1) for a in acts if a != nxt]
@@ -197,10 +217,14 @@ class BallDriver:
         if choice[0] == "kick":
             if choice[2] != "ok":
                 self.devs.append("%s:%s" % (choice[2], choice[1]))
-        elif not self.at_rest():
-            self.devs.append("%s@busy" % choice[0])
-        elif not (self.pos < len(self.script) and [self.script[self.pos]] == choice):
-            self.devs.append("%s@rest" % choice[0])
+        else:
+            name = choice[0]
+            if name == "plunge" and choice[2] != "ok":
+                name = "plunge-" + choice[2]
+            if not self.at_rest():
+                self.devs.append("%s@busy" % name)
+            elif not (self.pos < len(self.script) and self.script[self.pos] == choice):
+                self.devs.append("%s@rest" % name)
 
     def _do(self, choice):
         if choice == "T":
@@ -228,7 +252,13 @@ class BallDriver:
             self.w.drain()
         elif k == "pfhit":
             self.w.pf_hit()
-        if self.pos < len(self.script) and [self.script[self.pos]] == choice:
+        elif k == "shoot":
+            self.stat("shots")
+            self.w.shoot(choice[1])
+        elif k == "plunge":
+            self.stat("plunges")
+            self.w.plunge(choice[1], choice[2])
+        if self.pos < len(self.script) and self.script[self.pos] == choice:
             self.pos += 1
 
     def finish(self):
@@ -272,10 +302,13 @@ class BallDriver:
     def check_always(self, choice):
         for n, d in self.devices():
             cap = self.w.capacity(n)
-            if d.balls < 0 or d.balls > cap:
-                self.violate("C04:count-out-of-range:%s" % n, "%s.balls = %d (capacity %d) after %r: %s" % (n, d.balls, cap, choice, self.describe()))
+            if d.balls < 0:
+                # (a negative count that is still there at rest is reported by the rest oracle as well)
+                self.violate("C04:count-negative-transient:%s" % n, "%s.balls = %d after %r: %s" % (n, d.balls, choice, self.describe()))
+            elif d.balls > cap:
+                self.violate("C04:count-above-capacity:%s" % n, "%s.balls = %d (capacity %d) after %r: %s" % (n, d.balls, cap, choice, self.describe()))
         if self.m.playfield.balls < 0:
-            self.violate("C04:playfield-negative", "playfield.balls = %d after %r: %s" % (self.m.playfield.balls, choice, self.describe()))
+            self.violate("C04:playfield-negative-transient", "playfield.balls = %d after %r: %s" % (self.m.playfield.balls, choice, self.describe()))
 
     def check_rest(self, choice):
         w = self.w
@@ -296,18 +329,40 @@ class BallDriver:
             self.violate("C04:rest-conservation", "at rest after %r the counts sum to %d, num_balls_known = %d, the machine has %d balls: %s" %
                          (choice, total, known, w.total, desc))
         # ---- C05 ----
+        waiting_for_player = 0
+        broken = False
         for n, d in self.devices():
-            if d.state != "idle" and d.state != "eject_broken":
+            mech = self.w.dev[n].get("mechanical")
+            if mech and w.at[n] > 0 and d.state in ("waiting_for_ball_to_leave", "ejecting", "ball_left"):
+                waiting_for_player += w.at[n]      # only the player can serve this eject
+                continue
+            if d.state == "eject_broken":
+                broken = True
+                if not any(e == "%s_broken" % n for _, e in self.ev):
+                    self.violate("C05:broken-not-reported:%s" % n, "%s is in eject_broken but balldevice_%s_broken was never posted" % (n, n))
+                continue
+            lim = self.max_attempts.get(n, 0)
+            if lim and w.failed_kicks[n] >= lim:
+                desc = desc or self.describe()
+                self.violate("C05:attempts-exhausted-not-broken:%s" % n, "%d ejects of %s in a row failed (max_eject_attempts=%d) but at rest it is "
+                             "in state %s, not eject_broken: %s" % (w.failed_kicks[n], n, lim, d.state, desc))
+            if d.state == "waiting_for_target_ready" and any(
+                    c.get("mechanical") and w.at[t] > 0 for t, c in self.w.dev.items() if t == self.w.dev[n]["target"]):
+                continue        # its target holds a ball that only the player can launch
+            tgt = self.w.dev[n]["target"]
+            if d.state == "waiting_for_target_ready" and tgt in self.m.ball_devices and self.m.ball_devices[tgt].state == "eject_broken":
+                continue        # its target has reported itself broken
+            if d.state != "idle":
                 desc = desc or self.describe()
                 self.violate("C05:rest-not-idle:%s:%s" % (n, d.state), "nothing moves any more (no timer, no ball in transit) but %s is in "
                              "state %s after %r: %s" % (n, d.state, choice, desc))
-        if self.m.game is not None and self.m.game.balls_in_play <= w.total:
+        if self.m.game is not None and self.m.game.balls_in_play <= w.total and not broken and not waiting_for_player:
             want = self.m.game.balls_in_play
-            if w.loose < want:
+            if w.loose + waiting_for_player < want:
                 desc = desc or self.describe()
                 self.violate("C05:request-not-delivered", "at rest after %r: the game has %d ball(s) in play (%d ball starts, %d added) but only "
-                             "%d are on the playfield and nothing is moving: %s" %
-                             (choice, want, self.requested, self.adds, w.loose, desc))
+                             "%d are on the playfield (%d wait for the player in a plunger) and nothing is moving: %s" %
+                             (choice, want, self.requested, self.adds, w.loose, waiting_for_player, desc))
 
     # ---- helpers --------------------------------------------------------------------------------
     def stat(self, name, n=1):
@@ -339,7 +394,7 @@ def explore(ctx, prefix):
     total_exec, total_steps = 0, 0
     outcomes = set()
     states = set()
-    for name in SCRIPTS:
+    for name in (QUICK_SCRIPTS if quick else SCRIPTS):
         res = dbs(make_driver(name), bound, horizon=120)
         total_exec += res.executions
         total_steps += res.steps
@@ -356,7 +411,7 @@ def explore(ctx, prefix):
     ctx.guard("distinct_outcomes", len(outcomes))
     ctx.add(executions=total_exec, states=len(states), transitions=total_steps, traces_validated_against_impl=total_exec,
             deviation_bound=bound, distinct_final_states=len(outcomes), exhaustive=True)
-    ctx.assume("topologies %s; scripts %s" % (sorted(TOPO), {k: v[1] for k, v in SCRIPTS.items()}),
+    ctx.assume("topologies %s; scripts %s" % (sorted(TOPO), {k: (v[0], v[1], v[2]) for k, v in SCRIPTS.items() if not quick or k in QUICK_SCRIPTS}),
                "world outcomes per coil pulse: ok / silent (playfield only) / falls back after 0.6 s / does not move / arrives 1 s "
                "after the eject timeout; transit 0.3 s between devices, 1 s to the first playfield switch",
                "deviation bound %d; every execution is run to rest with default answers" % bound,
